@@ -1,22 +1,38 @@
 #!/bin/bash
-# tools/seedmatrix.sh: run every kept seeded change against its own check and the related ones (quick tier) and
-# record the verdicts in seeded/RESULTS.tsv (seed, check, exit code, number of violation signatures, first signature).
+# tools/seedmatrix.sh: run every kept seeded change against the check of its own property and the related ones
+# (quick tier, scratch worktree: see seedtest.sh) and record the verdicts in seeded/RESULTS.tsv
+# (seed, check, exit code, number of violation signatures, first signature).
 cd /verif
 out=seeded/RESULTS.tsv
 printf "seed\tcheck\texit\tsignatures\tfirst_signature\n" > $out
 run() { s=$1; shift; tools/seedtest.sh $s "$@" | grep '^seed=' | sed -E 's/^seed=(\S+) check=(\S+) exit=(\S+) violations=(\S+) *(signature: )?(.*)$/\1\t\2\t\3\t\4\t\6/' >> $out; }
 for s in C01 C02 C03 C04 C05 C06 C07; do run $s C01 C02 C03 C04 C05 C06 C07; done
+for s in C01b C02b C03b C04b C05b C06b; do run $s C01 C02 C03 C04 C05 C06; done
+run C07b C07 C08
 run C08 C08 C07 C11
+run C08b C08
 run C09 C09 C10
+run C09b C09 C12
 run C10 C10 C09 C11
+run C10b C10 C09
 run C11 C11 C10
+run C11b C11 C12
 run C13 C13 C12
+run C13b C13 C12
 run C14 C14 C01
+run C14b C14
 run C15 C15
+run C15b C15
 run C16 C16
+run C16b C16
 run C17 C17
+run C17b C17
 run C18 C18
+run C18b C18
 run C19 C19
+run C19b C19
 run C20 C20
+run C20b C20
 run C12 C12 C11
+run C12b C12 C09
 cat $out
